@@ -6,7 +6,7 @@ const (
 	cstMoveNext = "MoveNext"
 	cstCurrent  = "Current"
 
-	cstYieldFromRangeVar = "ʌ" // v۰
+	cstYieldFromRangeVar = "ʌ"  // v۰
 	cstRedefineVar       = "ʇɯ" // tm۰
 
 	cstPairKey = "Key"
